@@ -1411,5 +1411,294 @@ example : Data.ofScs ([Sc.int 1, Sc.int 2] ++ [Sc.int (-7)] : List (Sc Rat)) = s
   refine ⟨rfl, ?_, rfl⟩
   simp [Data.ofScs, mapOpt, Sc.int?, Sc.num?]
 
+/-! ## the two-configuration statements with the unit factors' non-vanishing made explicit -/
+
+section physical
+variable [Field K]
+
+/-- `uc.get_in_units(x, u)` under the configuration `fac` (the number itself without a unit). -/
+def inUnit (fac : String → K) : Option String → K → K
+  | none, x => x
+  | some u, x => x / factor fac u
+
+/-- the value read under `fac2`, expressed in the stored unit, is the written value expressed in that unit under
+    `fac1`: needs the READING factor to be non-zero (for a zero factor the left side is `… / 0 = 0`). -/
+theorem inUnit_scaleFn (fac1 fac2 : String → K) (u : Option String)
+    (h2 : ∀ s, u = some s → factor fac2 s ≠ 0) (x : K) :
+    inUnit fac2 u (scaleFn fac1 fac2 u x) = inUnit fac1 u x := by
+  cases u with
+  | none => rfl
+  | some s =>
+    have := h2 s rfl
+    simp only [inUnit, scaleFn]
+    field_simp
+
+/-- with both factors non-zero the rescaling is undone by the opposite one: nothing is lost. -/
+theorem scaleFn_back (fac1 fac2 : String → K) (u : Option String)
+    (h1 : ∀ s, u = some s → factor fac1 s ≠ 0) (h2 : ∀ s, u = some s → factor fac2 s ≠ 0) (x : K) :
+    scaleFn fac2 fac1 u (scaleFn fac1 fac2 u x) = x := by
+  cases u with
+  | none => rfl
+  | some s =>
+    have a := h1 s rfl
+    have b := h2 s rfl
+    simp only [scaleFn]
+    field_simp
+
+theorem map_inUnit_scaleFn (fac1 fac2 : String → K) (u : Option String)
+    (h2 : ∀ s, u = some s → factor fac2 s ≠ 0) (l : List K) :
+    (l.map (scaleFn fac1 fac2 u)).map (inUnit fac2 u) = l.map (inUnit fac1 u) := by
+  rw [List.map_map]
+  exact List.map_congr_left (fun x _ => inUnit_scaleFn fac1 fac2 u h2 x)
+
+theorem map_scaleFn_back (fac1 fac2 : String → K) (u : Option String)
+    (h1 : ∀ s, u = some s → factor fac1 s ≠ 0) (h2 : ∀ s, u = some s → factor fac2 s ≠ 0) (l : List K) :
+    (l.map (scaleFn fac1 fac2 u)).map (scaleFn fac2 fac1 u) = l := by
+  rw [List.map_map]
+  conv_rhs => rw [← List.map_id l]
+  exact List.map_congr_left (fun x _ => scaleFn_back fac1 fac2 u h1 h2 x)
+
+/-- **errorUnit_model_two_nz** (companion of `errorUnit_model_two`, factors non-zero): the uncertainty and a float
+    value read under `fac2` and expressed in the stored unit ARE the written ones expressed in it under `fac1`, and the
+    opposite rescaling returns the written numbers. -/
+theorem errorUnit_model_two_nz (fac1 fac2 : String → K) (units : Option String) (l e : List K) (shape : List Nat)
+    (hw : l.length = prodNat shape) (he : e.length = prodNat shape) (hne : prodNat shape ≠ 0)
+    (h1 : ∀ s, units = some s → factor fac1 s ≠ 0) (h2 : ∀ s, units = some s → factor fac2 s ≠ 0) :
+    ∃ t l' e', ucModelE fac1 units ⟨shape, .flt l⟩ e = some t ∧
+      valueUnit fac2 t = some ⟨shape, .flt l'⟩ ∧ errorUnit fac2 t = some ⟨shape, .flt e'⟩ ∧
+      l'.map (inUnit fac2 units) = l.map (inUnit fac1 units) ∧
+      e'.map (inUnit fac2 units) = e.map (inUnit fac1 units) ∧
+      l'.map (scaleFn fac2 fac1 units) = l ∧ e'.map (scaleFn fac2 fac1 units) = e := by
+  obtain ⟨t, a, b, c⟩ := errorUnit_model_two fac1 fac2 units ⟨shape, .flt l⟩ e hw he hne (by intro l h; cases h)
+  exact ⟨t, _, _, a, b, c, map_inUnit_scaleFn fac1 fac2 units h2 l, map_inUnit_scaleFn fac1 fac2 units h2 e,
+    map_scaleFn_back fac1 fac2 units h1 h2 l, map_scaleFn_back fac1 fac2 units h1 h2 e⟩
+
+/-- non-vacuity: `[3, 5]` ± `[1/2, 1/4]` stored in a unit worth 2 at writing and 7 at reading. -/
+example : ∃ t l' e', ucModelE (fun _ => (2 : ℚ)) (some "GPa") ⟨[2], .flt [3, 5]⟩ [1 / 2, 1 / 4] = some t ∧
+    valueUnit (fun _ => (7 : ℚ)) t = some ⟨[2], .flt l'⟩ ∧ errorUnit (fun _ => (7 : ℚ)) t = some ⟨[2], .flt e'⟩ ∧
+    l'.map (inUnit (fun _ => (7 : ℚ)) (some "GPa")) = [3 / 2, 5 / 2] := by
+  obtain ⟨t, l', e', a, b, c, d, _⟩ := errorUnit_model_two_nz (fun _ => (2 : ℚ)) (fun _ => (7 : ℚ)) (some "GPa")
+    [3, 5] [1 / 2, 1 / 4] [2] rfl rfl (by decide)
+    (by intro s _; simp [factor]; split <;> norm_num) (by intro s _; simp [factor]; split <;> norm_num)
+  exact ⟨t, l', e', a, b, c, by rw [d]; simp [inUnit, factor]⟩
+
+variable [LT K] [DecidableLT K]
+
+/-- **elastic_model_two_nz** (companion of `elastic_model_two`): the 36 numbers `r` handed to the setter on reading,
+    expressed in the stored pressure unit under the reading configuration, are the written constants expressed in it
+    under the writing configuration; rescaled back they are the written constants. -/
+theorem elastic_model_two_nz (fac1 fac2 : String → K) (eps atol rtol : K) (u : Option String)
+    (norm : List K → List K) (c : List K) (hlen : (norm c).length = 36)
+    (h1 : ∀ s, u = some s → factor fac1 s ≠ 0) (h2 : ∀ s, u = some s → factor fac2 s ≠ 0) :
+    ∃ t r, ecModel fac1 u norm c = some t ∧ ecRead fac2 eps atol rtol t = cijSet eps atol rtol r ∧
+      r.map (inUnit fac2 u) = (norm c).map (inUnit fac1 u) ∧ r.map (scaleFn fac2 fac1 u) = norm c := by
+  obtain ⟨t, a, b⟩ := elastic_model_two fac1 fac2 eps atol rtol u norm c hlen
+  exact ⟨t, _, a, b, map_inUnit_scaleFn fac1 fac2 u h2 _, map_scaleFn_back fac1 fac2 u h1 h2 _⟩
+
+/-- **system_model_two_units_nz** (companion of `system_model_two_units`): with non-zero factors of the box unit and of
+    every property's unit under both configurations, the System read back has the flags, symbols, masses and natoms
+    written; its cell and origin expressed in the box unit are those written; every float property expressed in its
+    unit (a box-scaled one: in the box unit) is the one written, and the opposite rescaling returns the written
+    numbers. -/
+theorem system_model_two_units_nz (fac1 fac2 : String → K) (eps : K) (boxUnit : Option String)
+    (s : SystemM K) (hw : s.Wf) (un : String → Option String) (hu : SysUnitsOk s.atoms un)
+    (hclean : cleanVects eps (mapM3 (scaleFn fac1 fac2 boxUnit) s.box.vects) = mapM3 (scaleFn fac1 fac2 boxUnit) s.box.vects)
+    (hdet : M3.det s.box.vects ≠ 0)
+    (hb1 : ∀ u, boxUnit = some u → factor fac1 u ≠ 0) (hb2 : ∀ u, boxUnit = some u → factor fac2 u ≠ 0)
+    (hp1 : ∀ p ∈ s.atoms.props, ∀ u, effUnit p.1 (un p.1) = some u → factor fac1 u ≠ 0)
+    (hp2 : ∀ p ∈ s.atoms.props, ∀ u, effUnit p.1 (un p.1) = some u → factor fac2 u ≠ 0) :
+    ∃ t s' F, systemModel fac1 boxUnit (s.atoms.props.map (fun p => (p.1, un p.1))) s = some t ∧
+      systemRead fac2 eps t = some s' ∧
+      s'.pbc = s.pbc ∧ s'.symbols = s.symbols ∧ s'.masses = s.masses ∧ s'.atoms.natoms = s.atoms.natoms ∧
+      mapM3 (inUnit fac2 boxUnit) s'.box.vects = mapM3 (inUnit fac1 boxUnit) s.box.vects ∧
+      s'.box.origin.map (inUnit fac2 boxUnit) = s.box.origin.map (inUnit fac1 boxUnit) ∧
+      s'.atoms.props = s.atoms.props.map F ∧
+      ∀ p ∈ s.atoms.props, (F p).1 = p.1 ∧ (F p).2.shape = p.2.shape ∧ ∀ l, p.2.data = .flt l →
+        let U := if effUnit p.1 (un p.1) = some "scaled" then boxUnit else effUnit p.1 (un p.1)
+        ∃ l', (F p).2.data = .flt l' ∧ l'.map (inUnit fac2 U) = l.map (inUnit fac1 U) ∧
+          l'.map (scaleFn fac2 fac1 U) = l := by
+  obtain ⟨t, a, b⟩ := system_model_two_units fac1 fac2 eps boxUnit s hw un hu hclean hdet
+  refine ⟨t, _, _, a, b, rfl, rfl, rfl, rfl, ?_, ?_, rfl, ?_⟩
+  · simp only [mapM3, V3.map, inUnit_scaleFn fac1 fac2 boxUnit hb2]
+  · simp only [V3.map, inUnit_scaleFn fac1 fac2 boxUnit hb2]
+  · intro p hp
+    by_cases hsc : effUnit p.1 (un p.1) = some "scaled"
+    · simp only [hsc, if_true]
+      refine ⟨trivial, trivial, ?_⟩
+      intro l hl
+      refine ⟨_, rfl, ?_, ?_⟩
+      · rw [hl]; simp only [Data.fltD, Data.toFlt, Option.getD_some]
+        exact map_inUnit_scaleFn fac1 fac2 boxUnit hb2 l
+      · rw [hl]; simp only [Data.fltD, Data.toFlt, Option.getD_some]
+        exact map_scaleFn_back fac1 fac2 boxUnit hb1 hb2 l
+    · simp only [hsc, if_false, propTwo]
+      refine ⟨trivial, trivial, ?_⟩
+      intro l hl
+      rw [hl]
+      exact ⟨_, rfl, map_inUnit_scaleFn fac1 fac2 _ (hp2 p hp) l, map_scaleFn_back fac1 fac2 _ (hp1 p hp) (hp2 p hp) l⟩
+
+/-- **system_dump_load_two_units_end_to_end_nz**: the same at the API level, through every text encoding. -/
+theorem system_dump_load_two_units_end_to_end_nz (fac1 fac2 : String → K) (eps : K) (boxUnit : Option String)
+    (s : SystemM K) (hw : s.Wf) (un : String → Option String) (hu : SysUnitsOk s.atoms un)
+    (hclean : cleanVects eps (mapM3 (scaleFn fac1 fac2 boxUnit) s.box.vects) = mapM3 (scaleFn fac1 fac2 boxUnit) s.box.vects)
+    (hdet : M3.det s.box.vects ≠ 0) (via : String) (hvia : via = "tree" ∨ via = "json" ∨ via = "xml")
+    (hb1 : ∀ u, boxUnit = some u → factor fac1 u ≠ 0) (hb2 : ∀ u, boxUnit = some u → factor fac2 u ≠ 0)
+    (hp1 : ∀ p ∈ s.atoms.props, ∀ u, effUnit p.1 (un p.1) = some u → factor fac1 u ≠ 0)
+    (hp2 : ∀ p ∈ s.atoms.props, ∀ u, effUnit p.1 (un p.1) = some u → factor fac2 u ≠ 0) :
+    ∃ s' F, systemDumpLoad fac1 fac2 eps via boxUnit none none (some (s.atoms.props.map (fun p => (p.1, un p.1)))) s
+        = some s' ∧
+      s'.pbc = s.pbc ∧ s'.symbols = s.symbols ∧ s'.masses = s.masses ∧ s'.atoms.natoms = s.atoms.natoms ∧
+      mapM3 (inUnit fac2 boxUnit) s'.box.vects = mapM3 (inUnit fac1 boxUnit) s.box.vects ∧
+      s'.box.origin.map (inUnit fac2 boxUnit) = s.box.origin.map (inUnit fac1 boxUnit) ∧
+      s'.atoms.props = s.atoms.props.map F ∧
+      ∀ p ∈ s.atoms.props, (F p).1 = p.1 ∧ (F p).2.shape = p.2.shape ∧ ∀ l, p.2.data = .flt l →
+        let U := if effUnit p.1 (un p.1) = some "scaled" then boxUnit else effUnit p.1 (un p.1)
+        ∃ l', (F p).2.data = .flt l' ∧ l'.map (inUnit fac2 U) = l.map (inUnit fac1 U) ∧
+          l'.map (scaleFn fac2 fac1 U) = l := by
+  obtain ⟨t, s', F, a, b, r⟩ := system_model_two_units_nz fac1 fac2 eps boxUnit s hw un hu hclean hdet hb1 hb2 hp1 hp2
+  have e := system_dump_load_two_units_end_to_end fac1 fac2 eps boxUnit s hw un hu hclean hdet via hvia
+  obtain ⟨t0, a0, b0⟩ := system_model_two_units fac1 fac2 eps boxUnit s hw un hu hclean hdet
+  have : t0 = t := by rw [a] at a0; cases a0; rfl
+  subst this
+  rw [b] at b0
+  exact ⟨s', F, by rw [e, b0], r⟩
+
+end physical
+
+section physical_ordered
+variable [Field K] [LinearOrder K] [IsStrictOrderedRing K]
+
+/-- **elastic_model_normal_form_two_nz** (companion of `elastic_model_normal_form_two`): for a crystal in the normal
+    form of `cs`, the numbers handed to the setter on reading, expressed in the stored unit, are the crystal's
+    constants expressed in it; rescaled back they are the crystal's constants — nothing lost to the normalisation. -/
+theorem elastic_model_normal_form_two_nz (fac1 fac2 : String → K) (eps atol rtol : K) (u : Option String)
+    (muK : Option (K × K)) (cs : String) (c : List K) (h : InForm cs c) (hc : cijSet eps atol rtol c = some c)
+    (h1 : ∀ s, u = some s → factor fac1 s ≠ 0) (h2 : ∀ s, u = some s → factor fac2 s ≠ 0) :
+    ∃ t r, ecModelCS fac1 u eps atol rtol muK cs c = some t ∧ ecRead fac2 eps atol rtol t = cijSet eps atol rtol r ∧
+      r.map (inUnit fac2 u) = c.map (inUnit fac1 u) ∧ r.map (scaleFn fac2 fac1 u) = c := by
+  obtain ⟨t, a, b⟩ := elastic_model_normal_form_two fac1 fac2 eps atol rtol u muK cs c h hc
+  exact ⟨t, _, a, b, map_inUnit_scaleFn fac1 fac2 u h2 _, map_scaleFn_back fac1 fac2 u h1 h2 _⟩
+
+end physical_ordered
+
+/-! ## records in the old `C` / `ij` format: the `except:` branch of `ElasticConstants(model=…)` -/
+
+section legacy_read
+variable [Field K] [LT K] [DecidableLT K]
+
+/-- the legacy branch does not see a record without a `C` list under the root. -/
+theorem ecReadAny_of_no_legacy_list (fac : String → K) (eps atol rtol : K) (kv : List (String × DM K))
+    (h : kv.lookup "C" = none) :
+    ecReadAny fac eps atol rtol (.node [("elastic-constants", .node kv)])
+      = ecRead fac eps atol rtol (.node [("elastic-constants", .node kv)]) := by
+  unfold ecReadAny
+  cases ecRead fac eps atol rtol (.node [("elastic-constants", .node kv)]) with
+  | some c => rfl
+  | none => simp [ecReadLegacy, DM.get?, List.lookup, h]
+
+/-- **elastic_model_roundtrip_any**: the ElasticConstants clause for the reader AS THE SOURCE HAS IT (new format first,
+    old format when that raises): on everything the writer produces, directly and through XML text, the old-format
+    branch changes nothing — what is read is `ElasticConstants(Cij=normalized_as(cs).Cij)`, and a refusal of the `Cij`
+    setter stays a refusal (it is not turned into a reading of something else). -/
+theorem elastic_model_roundtrip_any (fac : String → K) (eps atol rtol : K) (u : Option String)
+    (norm : List K → List K) (c : List K) (hlen : (norm c).length = 36)
+    (hf : ∀ s, u = some s → factor fac s ≠ 0) :
+    ∃ t, ecModel fac u norm c = some t ∧ ecReadAny fac eps atol rtol t = cijSet eps atol rtol (norm c) ∧
+      ecReadAny fac eps atol rtol (xmlNorm t) = cijSet eps atol rtol (norm c) := by
+  obtain ⟨t, h1, h2⟩ := elastic_model_roundtrip fac eps atol rtol u norm c hlen hf
+  obtain ⟨t', h1', h3⟩ := elastic_model_roundtrip_xml fac eps atol rtol u norm c hlen hf
+  have e : t' = t := by rw [h1] at h1'; cases h1'; rfl
+  subst e
+  refine ⟨t', h1, ?_, ?_⟩
+  · unfold ecModel at h1
+    split at h1
+    · cases h1
+    · cases h1
+      rw [ecReadAny_of_no_legacy_list fac eps atol rtol _ (by simp [List.lookup]), h2]
+  · unfold ecModel at h1
+    split at h1
+    · cases h1
+    · cases h1
+      have hx : ∀ m : DM K, xmlNorm (DM.node [("elastic-constants", DM.node [("Cij", m)])]) =
+          DM.node [("elastic-constants", DM.node [("Cij", xmlNorm m)])] := by intro m; simp [xmlNorm, xmlNormKV]
+      rw [hx] at h3 ⊢
+      rw [ecReadAny_of_no_legacy_list fac eps atol rtol _ (by simp [List.lookup]), h3]
+
+/-- a record in the old format: one `{stiffness: {value, unit}, ij}` entry per constant. -/
+def legacyRecord (u : Option String) (es : List (String × K)) : DM K :=
+  .node [("elastic-constants", .node [("C", .list (es.map (fun e =>
+    .node [("stiffness", .node (("value", .leaf (.flt e.2)) :: unitEntry u)), ("ij", .leaf (.str e.1))])))])]
+
+/-- `uc.set_in_units(x, u)`. -/
+def inWorking (fac : String → K) : Option String → K → K
+  | none, x => x
+  | some u, x => x * factor fac u
+
+omit [LT K] [DecidableLT K] in
+theorem valueUnit_scalar_flt (fac : String → K) (u : Option String) (x : K) :
+    valueUnit fac (.node (("value", .leaf (.flt x)) :: unitEntry u)) = some ⟨[], .flt [inWorking fac u x]⟩ := by
+  cases u with
+  | none => simp [valueUnit, unitOf?, unitEntry, DM.get?, List.lookup, Data.ofScs, mapOpt, Sc.int?, Sc.num?, applyUnit, inWorking]
+  | some s =>
+    by_cases hs : s = "scaled"
+    · simp [valueUnit, unitOf?, unitEntry, DM.get?, List.lookup, Data.ofScs, mapOpt, Sc.int?, Sc.num?, applyUnit, inWorking, hs, factor, Data.mulOne]
+    · simp [valueUnit, unitOf?, unitEntry, DM.get?, List.lookup, Data.ofScs, mapOpt, Sc.int?, Sc.num?, applyUnit, inWorking, hs, factor, Data.mulBy]
+
+
+omit [LT K] [DecidableLT K] in
+theorem legacyEntryRead_entry (fac : String → K) (u : Option String) (e : String × K) :
+    legacyEntryRead fac (.node [("stiffness", .node (("value", .leaf (.flt e.2)) :: unitEntry u)), ("ij", .leaf (.str e.1))])
+      = (legacyKey e.1).map (fun k => (k, inWorking fac u e.2)) := by
+  have hv := valueUnit_scalar_flt fac u e.2
+  cases h : legacyKey e.1 <;> simp [legacyEntryRead, DM.getStr?, DM.get?, List.lookup, hv, h, Data.toFlt]
+
+theorem mapOpt_map' {α β γ : Type} (f : β → Option γ) (g : α → β) (l : List α) :
+    mapOpt f (l.map g) = mapOpt (fun a => f (g a)) l := by
+  induction l with
+  | nil => rfl
+  | cons a l ih => simp only [List.map_cons, mapOpt, ih]
+
+/-- **elastic_legacy_read**: what `ElasticConstants(model=…)` makes of ANY record in the old format (any number of
+    entries, any order, repeated constants, any index strings): the index strings become keywords (`legacyKey`; one that
+    is too short raises), the stored numbers are converted from the record's unit under the reading configuration, a
+    later entry of a constant replaces an earlier one, and the resulting dictionary goes through the constructor the
+    number of keywords selects (`legacyForm`, tied to the source by `gen_legacyForm_eq_model`) and the `Cij` setter
+    (twice: in the constructor and in the reader). -/
+theorem elastic_legacy_read (fac : String → K) (eps atol rtol : K) (u : Option String) (es : List (String × K)) :
+    ecReadAny fac eps atol rtol (legacyRecord u es) =
+      (mapOpt (fun e => (legacyKey e.1).map (fun k => (k, inWorking fac u e.2))) es).bind (fun kv =>
+        ((legacyForm (kv.foldl (fun d e => dictSet d e.1 e.2) [])).bind (cijSet eps atol rtol)).bind
+          (cijSet eps atol rtol)) := by
+  have h0 : ecRead fac eps atol rtol (legacyRecord u es) = none := by
+    simp [ecRead, legacyRecord, DM.get?, List.lookup]
+  unfold ecReadAny
+  rw [h0]
+  simp only [ecReadLegacy, legacyRecord, DM.get?, List.lookup_cons_self, mapOpt_map', legacyEntryRead_entry]
+  cases mapOpt (fun e => (legacyKey e.1).map (fun k => (k, inWorking fac u e.2))) es <;> rfl
+
+/-- non-vacuity: a cubic record `C11 = 5, C12 = 2, C44 = 1` GPa (entries in another order, `C12` given twice: the later
+    one counts) read where a GPa is worth 3: every constant × 3 in its place. -/
+example : ecReadAny (fun _ => (3 : ℚ)) (1 / 1000000000) (1 / 1000000000) (1 / 100000)
+    (legacyRecord (some "GPa") [("4 4", 1), ("1 2", 7), ("1 1", 5), ("1 2", 2)])
+    = some (cubicForm 15 6 3) := by decide +kernel
+
+/-- … and a record with four constants is refused (no representation has four). -/
+example : ecReadAny (fun _ => (3 : ℚ)) (1 / 1000000000) (1 / 1000000000) (1 / 100000)
+    (legacyRecord (some "GPa") [("4 4", 1), ("1 2", 7), ("1 1", 5), ("1 3", 2)]) = none := by decide +kernel
+
+/-- **elastic_legacy_read_cubic**: the old-format record of a cubic crystal (each constant once, in any of the six
+    orders spelled `"i j"`): the crystal's 6×6 array with every constant converted — through the setter. -/
+theorem elastic_legacy_read_cubic (fac : String → K) (eps atol rtol : K) (u : Option String) (c11 c12 c44 : K) :
+    ecReadAny fac eps atol rtol (legacyRecord u [("1 1", c11), ("1 2", c12), ("4 4", c44)]) =
+      ((cijSet eps atol rtol (cubicForm (inWorking fac u c11) (inWorking fac u c12) (inWorking fac u c44))).bind
+        (cijSet eps atol rtol)) := by
+  rw [elastic_legacy_read]
+  have k1 : legacyKey "1 1" = some "C11" := by decide
+  have k2 : legacyKey "1 2" = some "C12" := by decide
+  have k3 : legacyKey "4 4" = some "C44" := by decide
+  simp only [mapOpt, k1, k2, k3, Option.map_some, Option.bind_some, List.foldl]
+  rfl
+
+end legacy_read
 
 end Atomman.C10
